@@ -377,6 +377,10 @@ class HomeKitConnection:
             await self._connector
         except asyncio.CancelledError:
             pass
+        except Exception as ex:
+            # The connector had already ended with an error (e.g. an authentication
+            # failure); there is nothing left to stop and closing must still proceed.
+            logger.debug("%s: Connector had already failed: %s", self.name, ex)
 
     async def get(self, target: str) -> HttpResponse:
         """
